@@ -92,6 +92,7 @@ def blocks(tier, seed):
             out.append({"grid": g, "image": "mix", "levels": lv, "variant": seed % 3, "tier": tier})
     out.append({"pairs": True, "variant": seed % 3, "tier": tier})
     out.append({"plural_forms": True, "variant": seed % 3, "tier": tier})
+    out.append({"solver_methods": True})
     return out
 
 
@@ -166,6 +167,15 @@ FORMS = ["list", "tuple", "emulsion", "generator", "iter", "map", "array-of-obje
 
 
 def cases(block):
+    if block.get("solver_methods"):
+        # images whose unconstrained optimum lies OUTSIDE the parameter bounds (amplitude 1.25, negative width impossible), every
+        # scipy solver the caller may select: a call may refuse (raise), but a returned droplet respects the bounds
+        for method in ("trf", "dogbox", "lm"):
+            for amp in (1.25, -1.3, 0.6):
+                for start in (0.9, -0.9, 0.0):
+                    for mode in (0, 1, 3):
+                        yield {"solver_method": method, "amp": amp, "start": start, "mode": mode}
+        return
     if block.get("plural_forms"):
         for form in FORMS:
             for nproc in (1, 2, 3, "auto"):
@@ -219,6 +229,33 @@ def run_pair(case, ctx):
         return
     ctx.check("C04.options-not-carried-over", type(got) is type(ref) and got.data.tobytes() == ref.data.tobytes(),
               {"fresh_options": str(ref), "options_used_before": str(got), "options_after": {k: repr(v)[:80] for k, v in shared.items()}}, tags)
+
+
+def run_solver_method(case, ctx):
+    from pde import UnitGrid
+
+    from droplets import droplets as dm
+    from droplets.image_analysis import refine_droplet
+
+    grid = UnitGrid([24, 24])
+    amps = [0.0] * 4
+    amps[case["mode"]] = case["amp"]
+    truth = dm.PerturbedDroplet2D(np.array([12.3, 11.8]), 5.0, 1.0, np.array(amps))
+    field = truth.get_phase_field(grid)
+    a0 = [0.0] * 4
+    a0[case["mode"]] = case["start"]
+    cand = dm.PerturbedDroplet2D(np.array([12.0, 12.0]), 5.0, 1.0, np.array(a0))
+    tags = {"solver": case["solver_method"], "truth_outside_bounds": abs(case["amp"]) > 1}
+    try:
+        out = refine_droplet(field, cand, least_squares_params={"method": case["solver_method"]})
+        ctx.op()
+    except Exception:  # noqa  (e.g. scipy: method 'lm' does not support bounds) - refusing is allowed, returning an out-of-bounds droplet is not
+        ctx.count("solver-refused")
+        return
+    ctx.count("solver-returned")
+    ctx.check("C04.bounds", out.radius >= 0 and (out.interface_width is None or out.interface_width >= 0) and bool(np.all(np.abs(out.amplitudes) <= 1 + 1e-12)),
+              {"radius": out.radius, "width": out.interface_width, "amplitudes": out.amplitudes}, tags)
+    ctx.check("C04.class", type(out) is dm.PerturbedDroplet2D, {"type": type(out).__name__}, tags)
 
 
 def run_plural_forms(case, ctx):
@@ -377,6 +414,8 @@ def run_case(case, ctx):
         return run_pair(case, ctx)
     if "plural_forms" in case:
         return run_plural_forms(case, ctx)
+    if "solver_method" in case:
+        return run_solver_method(case, ctx)
     field, cand, args, loc = prepare(case)
     g, grid, kind, dim, c, R, w, img, clsname, modes, cw, state, tags, a, b, data, cls, cand0, lv = (loc[k] for k in (
         "g", "grid", "kind", "dim", "c", "R", "w", "img", "clsname", "modes", "cw", "state", "tags", "a", "b", "data", "cls", "cand0", "lv"))
